@@ -40,11 +40,16 @@ func VerifC06CacheProtocol() {
 	var events []verifClearEvent
 	depth := 4 + vp.Tier()
 	depMenu := [][2]bool{{true, false}, {false, true}, {true, true}}
+	// push start instants are readings of the clock (so that a counterexample replays against the wall clock):
+	// one push has started before the first operation, further pushes start at "new push" operations
+	starts := []time.Time{time.Now()}
 	for step := 0; step < depth; step++ {
 		p := vp.Name("s", step)
-		op := vp.Choice(p+".op", 12)
+		op := vp.Choice(p+".op", 13)
 		switch {
-		case op < 6: // Add(key, deps) by a push that started at 'start'
+		case op == 12: // a new push starts now
+			starts = append(starts, time.Now())
+		case op < 6: // Add(key, deps) by the latest push or by the one before it
 			key := uint64(op % 2)
 			dm := depMenu[op/2]
 			var deps []ConfigHash
@@ -53,9 +58,10 @@ func VerifC06CacheProtocol() {
 					deps = append(deps, verifDeps[i].HashCode())
 				}
 			}
-			start := vp.Time(p + ".start")
-			now := time.Now()
-			vp.Assume(!start.After(now)) // a push adds to the cache after it started
+			start := starts[len(starts)-1]
+			if len(starts) > 1 && vp.Choice(p+".olderPush", 2) == 1 {
+				start = starts[len(starts)-2]
+			}
 			val := &discovery.Resource{Name: vp.Name("v", step)}
 			ghost[val] = verifGhost{start: start, deps: dm}
 			c.Add(key, verifEntry{deps: deps}, &PushRequest{Start: start}, val)
@@ -107,8 +113,8 @@ func VerifC06CacheProtocol() {
 func VerifC06Twin() {
 	features.XDSCacheMaxSize = 1
 	c := newTypedXdsCache[uint64]().(*lruCache[uint64])
+	start := time.Now() // the push started before the invalidation
 	c.ClearAll()
-	start := vp.Time("start")
 	val := &discovery.Resource{Name: "v"}
 	c.Add(0, verifEntry{}, &PushRequest{Start: start}, val)
 	vp.Assert(c.Get(0) == val, "twin")
